@@ -39,39 +39,28 @@ func main() {
 // ---------------------------------------------------------------------------------------------
 // width table and additivity
 
-func wtab(ss ...string) string {
-	seen := map[rune]bool{}
-	var rs []rune
-	for _, s := range ss {
-		for _, r := range s {
-			if r >= 0x20 && r <= 0x7e || seen[r] {
-				continue
-			}
-			seen[r] = true
-			rs = append(rs, r)
-		}
-	}
-	sort.Slice(rs, func(i, j int) bool { return rs[i] < rs[j] })
+// swtab renders (sw w0 ... wn), wi = runewidth.StringWidth(x[:i]) for every byte index i of the excerpt
+// x the implementation printed: the model and the oracle need the display width of excerpt prefixes
+// only, and StringWidth (grapheme clusters, invalid bytes) is go-runewidth's business.
+func swtab(x string) string {
 	var b strings.Builder
-	b.WriteString("(w")
-	for _, r := range rs {
-		fmt.Fprintf(&b, " (%d %d)", r, runewidth.RuneWidth(r))
+	b.WriteString("(sw")
+	for i := 0; i <= len(x); i++ {
+		fmt.Fprintf(&b, " %d", runewidth.StringWidth(x[:i]))
 	}
 	b.WriteString(")")
 	return b.String()
 }
 
-// additive reports whether StringWidth of every rune-aligned prefix of s is the sum of RuneWidth
-// (go-runewidth works on grapheme clusters; the model's width oracle is instantiated by the sum).
-func additive(s string) bool {
-	sum := 0
-	for i, r := range s {
-		if runewidth.StringWidth(s[:i]) != sum {
-			return false
-		}
-		sum += runewidth.RuneWidth(r)
+// excerptOf extracts the hex excerpt of a (rep ...) rendering
+func excerptOf(rep string) string {
+	f := strings.Fields(strings.Trim(rep, "()"))
+	if len(f) < 4 || f[2] == "-" {
+		return ""
 	}
-	return runewidth.StringWidth(s) == sum
+	var out []byte
+	fmt.Sscanf(f[2], "%x", &out)
+	return string(out)
 }
 
 // ---------------------------------------------------------------------------------------------
@@ -124,11 +113,7 @@ func lineLen(r *Rng) int {
 func runLbo(c *Ctx) {
 	emit := func(s string, off int) {
 		ls, line, col := cli.VerifGetLineByOffset(s, off)
-		if !additive(ls) {
-			c.Count("lbo:nonadditive-skipped")
-			return
-		}
-		c.Emit("(lbo %s %d %s %d %d %s)", Hexs([]byte(s)), off, Hexs([]byte(ls)), line, col, wtab(s))
+		c.Emit("(lbo %s %d %s %d %d %s)", Hexs([]byte(s)), off, Hexs([]byte(ls)), line, col, swtab(ls))
 		c.Count("lbo")
 	}
 	// the repository's own table-test strings first
@@ -395,13 +380,9 @@ func runJSONCase(c *Ctx, jc jsonCase, tmpdir string) (line string, ok bool) {
 	}
 	chunks += ")"
 	rep := parseReport(stderr, "invalid json: ", fname, fname)
-	if !additive(stderr) {
-		c.Count("json:nonadditive-skipped")
-		return "", false
-	}
 	c.Count("json:" + jc.transport)
 	return fmt.Sprintf("(json %s %s %s %s %s %s %s %s)", tr, Hexs([]byte(fname)), rle(jc.data), errk, chunks,
-		Hexs([]byte(stderr)), rep, wtab(string(jc.data))), true
+		Hexs([]byte(stderr)), rep, swtab(excerptOf(rep))), true
 }
 
 // a well-formed multi-line document of roughly the given size; term = line terminator
@@ -718,12 +699,8 @@ func queryCase(c *Ctx, tmp string, src string, viaFile bool, bt *badTok, inj int
 	var out, er bytes.Buffer
 	cli.VerifRunC17(args, strings.NewReader(""), &out, &er)
 	stderr := er.String()
-	if !additive(stderr) {
-		c.Count("query:nonadditive-skipped")
-		return
-	}
 	rep := parseReport(stderr, "invalid query: ", fname, contents)
-	c.Emit("(query %s %s %s %s %s %s)", Hexs([]byte(fname)), Hexs([]byte(contents)), perr, Hexs([]byte(stderr)), rep, wtab(contents))
+	c.Emit("(query %s %s %s %s %s %s)", Hexs([]byte(fname)), Hexs([]byte(contents)), perr, Hexs([]byte(stderr)), rep, swtab(excerptOf(rep)))
 	if bt != nil {
 		c.Count("query:" + bt.kind)
 	} else {
@@ -844,12 +821,9 @@ func runYAML(c *Ctx) {
 					if pr != nil {
 						contents = data[:er.first]
 					}
-					if !additive(stderr) {
-						continue
-					}
 					rep := parseReport(stderr, "invalid yaml: ", "<stdin>", "<stdin>")
 					c.Emit("(yaml %s %s %s %d %s %s %s)", trs, Hexs([]byte("<stdin>")), Hexs(contents), idx,
-						Hexs([]byte(stderr)), rep, wtab(string(data)))
+						Hexs([]byte(stderr)), rep, swtab(excerptOf(rep)))
 					c.Count("yaml:" + tr)
 				}
 			}
@@ -898,9 +872,6 @@ func runBin(c *Ctx) {
 		cmd.Stderr = &er
 		cmd.Run()
 		stderr := er.String()
-		if !additive(stderr) {
-			return
-		}
 		rep := parseReport(stderr, "invalid json: ", fname, fname)
 		chunks := "(c)"
 		if transport == "pipe" {
@@ -910,7 +881,7 @@ func runBin(c *Ctx) {
 			tr = "(pipe real)"
 		}
 		c.Emit("(json %s %s %s %s %s %s %s %s)", tr, Hexs([]byte(fname)), rle(data), errk, chunks,
-			Hexs([]byte(stderr)), rep, wtab(string(data)))
+			Hexs([]byte(stderr)), rep, swtab(excerptOf(rep)))
 		c.Count("bin:" + transport)
 	}
 	for i := 0; i < c.N; i++ {
